@@ -8,6 +8,7 @@ open ActixNet ActixNet.Worker Driver
 structure State where
   s : St := { n := 0, svc := fun _ => {}, timeout := 0 }
   started : Bool := false
+  limit : Option Nat := none   -- `max_concurrent_connections`, when the case sets one (then `wq=` is reported)
 
 def init : State := {}
 
@@ -146,7 +147,11 @@ def gateObs (ws : List String) : String :=
 /-- `fault` scenario (a worker dies, its service is slow to tear down): what C08/C01 demand — the killing
 connection gets no answer, every later one is answered by a live worker, the replacement rejoins -/
 def faultObs (ws : List String) : String :=
-  if kv ws "skip" == some "ports" then "skipped" else "before=12 killed=- window=22 replaced=1 later-all-served=1"
+  if kv ws "skip" == some "ports" then "skipped" else
+  let gapOk := match kv ws "gap" with
+    | none => true
+    | some g => match g.toNat? with | some g => g ≤ 1500 | none => false
+  if gapOk then "before=12 killed=- window=22 replaced=1 later-all-served=1" else "bad-op"
 
 def sigObs (ws : List String) : String :=
   if kv ws "skip" == some "ports" then "skipped" else
@@ -175,16 +180,30 @@ def showRes : Res → String
   | .conn id w => s!"c{id}/{bit w}" | .closed w => s!"closed/{bit w}" | .stop k w => s!"s{k}/{bit w}"
   | .advanced w => s!"adv/{bit w}" | .polled => "polled" | .polledY _ => "polled"
 
+/-- the `WorkerAvailable` notifications the worker pushes during an op: one exactly when a run of releases takes
+the raw counter from above the limit down to it (`Src.wcDecCrossed` on the release that reaches `limit`) -/
+def wqSuffix (limit : Option Nat) (rawBefore rawAfter : Nat) : String :=
+  match limit with
+  | none => ""
+  | some l =>
+    let crossed := (List.range (rawBefore - rawAfter)).any fun j => Src.wcDecCrossed (rawBefore - j) l
+    s!" wq={bit crossed}"
+
 def step (st : State) (line : String) : State × String :=
   let ws := words line
   match ws with
   | "case" :: _ =>
     let n := ((kv ws "n").bind (·.toNat?)).getD 1
     let timeout := ((kv ws "timeout").bind (·.toNat?)).getD 0
-    match parseSvcs ws n with
-    | some svcs =>
-      ({ s := ActixNet.Worker.init { n := n, timeout := timeout, svcs := fun i => svcs.getD i {} }, started := true }, "ok")
-    | none => ({ st with started := false }, "bad-case")
+    let limit : Option (Option Nat) := match kv ws "limit" with
+      | none => some none
+      | some l => match l.toNat? with
+        | some l => if 1 ≤ l && l ≤ 1000 then some (some l) else none
+        | none => none
+    match parseSvcs ws n, limit with
+    | some svcs, some limit =>
+      ({ s := ActixNet.Worker.init { n := n, timeout := timeout, svcs := fun i => svcs.getD i {} }, started := true, limit := limit }, "ok")
+    | _, _ => ({ st with started := false }, "bad-case")
   | "gate" :: _ => (st, gateObs ws)
   | "fault" :: _ => (st, faultObs ws)
   | "srv" :: _ => (st, srvObs ws)
@@ -223,13 +242,15 @@ def step (st : State) (line : String) : State × String :=
       let st' := { st with s := r.1 }
       match r.2 with
       | .bad => (st, "bad-op")
-      | .ok => (st', "ok")
+      | .ok => (st', match op with
+          | .finish _ => "ok" ++ wqSuffix st.limit st.s.raw st'.s.raw
+          | _ => "ok")
       | .refused => (st', "refused")
       | .conn id w => (st', s!"ok c{id} woke={bit w}")
       | .closed w => (st', s!"ok woke={bit w}")
       | .stop k w => (st', s!"ok s{k} woke={bit w} reply={if st.s.finished then "x" else "-"}")
       | .advanced w => (st', s!"ok woke={bit w}")
-      | .polled => (st', pollObs st.s st'.s)
-      | .polledY rs => (st', s!"acts=[{",".intercalate (rs.map showRes)}] " ++ pollObs st.s st'.s)
+      | .polled => (st', pollObs st.s st'.s ++ (if st'.s.fault.isSome then "" else wqSuffix st.limit st.s.raw st'.s.raw))
+      | .polledY rs => (st', s!"acts=[{",".intercalate (rs.map showRes)}] " ++ pollObs st.s st'.s ++ (if st'.s.fault.isSome then "" else wqSuffix st.limit st.s.raw st'.s.raw))
 
 end Driver.Worker
